@@ -78,12 +78,25 @@ def check(repo, rep):
         for e in dd['leaf'].effects:
             if e[0] == 'call' and e[1][0] == 'call' and e[1][1][0] == 'attr' and e[1][1][2] in ('read', 'tokenize') and e[1][1][2] == 'read':
                 rep.ob('split() does not read the source before returning', False, cx.where('core', e[3]), tag + ':early-read', 'split() calls %s' % show(e[1])[:80])
+    # the max_read limiter must not pull more from its input than it hands on (lazy reading through the wrapper split() uses)
+    from . import c10
+    sub = type(rep)(rep.prop, rep.tier, rep.repo_root, rep.level)
+    c10.check(repo, sub)
+    for o in sub.obligations:
+        if 'limiter' in o['rule']:
+            rep.obligations.append(o)
+    for v in sub.violations:
+        if 'limiter' in v['rule'] or '_Limiter' in v['construct']:
+            rep.violations.append(v)
+    for u in sub.inconclusive:
+        if '_Limiter' in u:
+            rep.unknown(u)
     # split_and_join / list consumers are not part of the lazy path; workers iterate the generator directly (C12)
     rep.explanation = ('(1) From the tokenizer abstract interpretation (all states x inputs x 4 modes): exactly one source read per loop iteration and before any append/deliver; every token built in an '
                        'iteration is yielded in that same iteration (no stash, no deferred hand-over); after end of stream the loop is left, so end of stream is requested once; a token that is not a cut is '
                        'decided at most max(max_continuous_silence,0)+1 frames after its last frame (proved as an entailment). (2) Structural: tokenize() creates one generator and its callback / generator / '
                        'list modes are thin wrappers over it (callback(*token) unfiltered, the generator itself, list(generator)); split() returns a generator expression / map over '
-                       'tokenize(source, generator=True) and does not read before returning. Prefix consistency follows from determinism of the step function plus decision-time delivery (argument, DESIGN 4.8).')
+                       'tokenize(source, generator=True) and does not read before returning; the max_read limiter asks its input for min(budget, size) and returns None without reading when the budget is used up. (3) Prefix consistency, as an inductive obligation stated with the end-of-stream leaves of the code itself: whenever end of stream would flush a token from an abstract state, any further frame either delivers a token with the same start or keeps the buffer (same first frame) in a state where the flush still delivers. Prefix consistency follows from determinism of the step function plus decision-time delivery (argument, DESIGN 4.8).')
     rep.assumptions = ['the consumer drives the generator; Python generator semantics (suspension at yield)']
     rep.trusted_base = ["the analyser's model of the Python subset used by StreamTokenizer and its own Fourier-Motzkin core"]
     rep.analysed['functions'] = ['core.StreamTokenizer.tokenize', 'core.StreamTokenizer.%s' % (gen_name or '?'), 'core.split']
